@@ -1,4 +1,4 @@
-#!/bin/sh
+#!/bin/bash
 # Runs every claimed check once on the current tree; prints one line per property.
 cd "$(dirname "$0")"
 fail=0
@@ -7,4 +7,5 @@ for p in $(python3 -c "import json; print(' '.join(c['property_id'] for c in jso
   echo "$out" | grep -E "^(property|VIOLATION)" | cut -c1-200
   [ $rc -ne 0 ] && fail=1
 done
+bin/gocv witnesses | grep -v ": quiet$"; [ ${PIPESTATUS:-0} -ne 0 ] && fail=1
 exit $fail
